@@ -711,6 +711,77 @@ def check_C10(tier, seed):
         "the growth gates are generous multiples (fragmentation of multi-page runs is legitimate); the exact step rules carry the claim"])
 
 
+L2_ASSUME = [
+    "TLC; Threads.tla transcribes Tx::new / commit / resize / drop at the yield hook points (DESIGN.md Appendix D)",
+    "schedules are quantified at the instrumented yield points; between two points the code runs atomically w.r.t. the scheduler",
+    "std::sync::RwLock is writer-preferring (modelled); observations are made by the harness, not by hooks",
+]
+
+
+def threads_check(prop, tier, seed):
+    import threads
+    owner_scope = lambda sig: sig.get("owner") not in (None, prop)
+    v = Verdict(prop, out_of_scope=owner_scope)
+    mc = threads.mc_threads("MC_Threads_fixed.cfg")
+    if not mc["ok"]:
+        raise ToolError("Threads.tla (registration as repaired) violates %s" % mc["violated"])
+    guard = threads.mc_threads("MC_Threads_pinned.cfg")
+    if guard["ok"] or "ReaderSafe" not in " ".join(guard["violated"]):
+        raise ToolError("vacuity guard: the pinned registration order should violate ReaderSafe")
+    live = None
+    if prop == "C09":
+        live = tlc_mc("MC_Threads", "MC_Threads_live.cfg", timeout=2400, workers=10)
+        if not live["ok"]:
+            raise ToolError("Threads.tla violates Progress / deadlock freedom: %s" % live["violated"])
+    if prop == "C04":
+        plans = [(1, 2, 2, 2, 2), (2, 1, 3, 1, 2)] if tier == "quick" else \
+                [(1, 2, 2, 2, 3), (2, 2, 2, 2, 2), (2, 1, 4, 2, 2), (1, 3, 1, 2, 2)]
+        nrandom = 600 if tier == "quick" else 20000
+    else:
+        plans = [(1, 2, 2, 1, 2), (1, 3, 1, 1, 2)] if tier == "quick" else \
+                [(1, 3, 2, 1, 2), (2, 2, 2, 1, 2), (2, 3, 1, 1, 2), (1, 2, 3, 1, 3)]
+        nrandom = 600 if tier == "quick" else 20000
+    tot = dict(schedules=0, runs=0, states=0, transitions=0, plans=[])
+    sample = None
+    for (nr, nw, commits, reads, maxpre) in plans:
+        readers = list(range(1, nr + 1))
+        writers = list(range(11, 11 + nw))
+        beh, s, t = threads.gen_schedules("gt_%s_%d_%d_%d" % (prop, nr, nw, commits), readers, writers, commits, reads,
+                                          grows=[1], maxpre=maxpre)
+        runs, bad, smp = threads.run_schedules(v, prop, beh, nr, nw, commits, reads, "%s-%d-%d" % (prop, nr, nw),
+                                               random=nrandom // len(plans), seed=seed)
+        tot["schedules"] += len(beh); tot["runs"] += runs; tot["states"] += s; tot["transitions"] += t
+        tot["plans"].append(dict(readers=nr, writers=nw, commits_per_writer=commits, reads=reads, max_preemptions=maxpre,
+                                 schedules=len(beh), runs=runs))
+        sample = sample or [dict(schedule=beh[len(beh) // 2]["sched"][:14], observed=smp[0] if smp else None)]
+    cov = dict(states=mc["states"] + tot["states"] + (live["states"] if live else 0),
+               transitions=mc["transitions"] + tot["transitions"] + (live["transitions"] if live else 0),
+               traces_validated_against_impl=tot["runs"], evaluations=tot["runs"], distinct_nontrivial=tot["schedules"],
+               rule=("MC: Threads.tla, all interleavings (no preemption bound) of 2 readers and 2 writer threads incl. a growing "
+                     "commit: ReaderSafe, ReadsStable, Freshness" if prop == "C04" else
+                     "MC: Threads.tla: OneWriter, NoLostUpdate, FinalCount, ReaderNotBlockedByWriter, deadlock freedom; Progress "
+                     "under weak fairness (no state constraint)") +
+                    "; the pinned registration order violates ReaderSafe (vacuity guard). spec->impl: Gen_Threads enumerates every "
+                    "schedule with at most k preemptions (distinct_nontrivial); each is forced on real OS threads parked at the "
+                    "yield hook points; a thread the model says can proceed but stays blocked for 2 s, an unfinished thread after "
+                    "the schedule, overlapping writers, a counter that is not the number of commits, a reader that sees a mix, a "
+                    "change or a state older than a commit completed before it began, are violations. Seeded random-priority "
+                    "schedules beyond the bound.",
+               samples=sample, model=dict(fixed=dict(states=mc["states"], transitions=mc["transitions"]),
+                                          pinned_violates="ReaderSafe",
+                                          live=dict(states=live["states"]) if live else None),
+               plans=tot["plans"], exhaustive=False)
+    return v.finish(tier, seed, "model_checking", cov, L2_ASSUME)
+
+
+def check_C04(tier, seed):
+    return threads_check("C04", tier, seed)
+
+
+def check_C09(tier, seed):
+    return threads_check("C09", tier, seed)
+
+
 def replay(prop, path):
     """Re-executes the history stored in a replay file and prints what the last step yields."""
     r = json.load(open(path))
